@@ -407,6 +407,13 @@ func coqVal(v reflect.Value, owner string) string {
 		return vh.Bool(v.Bool())
 	case reflect.Uint8, reflect.Uint16, reflect.Uint32, reflect.Uint64, reflect.Uint:
 		return vh.N(v.Uint())
+	case reflect.Int, reflect.Int64, reflect.Int32:
+		return vh.Z(v.Int())
+	case reflect.Func:
+		if v.IsNil() {
+			return "None"
+		}
+		return fmt.Sprintf("(Some %d)", funcID(v.Pointer()))
 	case reflect.String:
 		return vh.Str(v.String())
 	case reflect.Array:
@@ -445,6 +452,17 @@ func coqVal(v reflect.Value, owner string) string {
 		return "(Some " + coqVal(v.Elem(), "") + ")"
 	}
 	panic(fmt.Sprintf("c31: cannot emit %s (%s)", t, owner))
+}
+
+// funcID: a small identity for a func value (by code pointer), stable within a run.
+var funcIDs = map[uintptr]int{}
+
+func funcID(p uintptr) int {
+	if id, ok := funcIDs[p]; ok {
+		return id
+	}
+	funcIDs[p] = len(funcIDs) + 1
+	return funcIDs[p]
 }
 
 // coqPtr: Coq term of a pointer-typed `any` (typed nil -> None)
